@@ -10,6 +10,7 @@ import (
 	"sync"
 	"time"
 
+	"github.com/go-redis/redis/v7"
 	bolt "go.etcd.io/bbolt"
 
 	trcommon "github.com/cossacklabs/acra/cmd/acra-translator/common"
@@ -20,19 +21,23 @@ import (
 	"github.com/cossacklabs/acra/pseudonymization/common"
 	"github.com/cossacklabs/acra/pseudonymization/storage"
 
+	"verif/harness/internal/rig/fakeredis"
 	"verif/harness/internal/rig/ksrig"
 )
 
 // the three client contexts of every history
 var clientIDs = [][]byte{[]byte("client_alpha"), []byte("client-bravo-2"), []byte("charlie 3")}
 
-// storeKind is one of the four supported token store configurations that can run here.
-type storeKind struct{ bolt, enc bool }
+// storeKind is one of the six supported token store configurations that can run here (the Redis ones on rig/fakeredis).
+type storeKind struct{ bolt, enc, redis bool }
 
 func (k storeKind) name() string {
 	n := "memory"
 	if k.bolt {
 		n = "boltdb"
+	}
+	if k.redis {
+		n = "redis"
 	}
 	if k.enc {
 		return n + "+encrypting-wrapper"
@@ -40,7 +45,11 @@ func (k storeKind) name() string {
 	return n + "+plain"
 }
 
-var storeKinds = []storeKind{{false, false}, {false, true}, {true, false}, {true, true}}
+var storeKinds = []storeKind{{false, false, false}, {false, true, false}, {true, false, false}, {true, true, false}}
+
+// redisKinds: Acra's RedisStorage as acra-server / acra-translator open it (NewRedisClient + NewRedisStorage), raw and behind the
+// encrypting wrapper (redis.go drives them through every layer of the monitor).
+var redisKinds = []storeKind{{redis: true}, {redis: true, enc: true}}
 
 // column settings (read through Acra's own YAML loader): <type>_c consistent, <type>_r random
 const tokenColumnsYAML = `
@@ -114,6 +123,14 @@ type rig struct {
 	dt     *pseudonymization.DataTokenizer
 	te     *pseudonymization.TokenEncryptor
 	tp     *pseudonymization.TokenProcessor
+
+	// Redis variants (redis.go): the stand-in server, the database the token store lives in, this rig's connection pool, and
+	// further rigs on the same server and database, each with a connection pool of its own (like separate Acra processes)
+	srv    *fakeredis.Server
+	ownSrv bool
+	rdb    int
+	rcli   *redis.Client
+	peers  []*rig
 }
 
 func newRig(kind storeKind, ks ksrig.FullKeyStore, nosync bool) (*rig, error) {
@@ -145,6 +162,10 @@ func newRigGran(kind storeKind, ks ksrig.FullKeyStore, nosync bool, gran string)
 	if kind.bolt {
 		g.path = filepath.Join(ksrig.ScratchDir("c10-bolt"), "tokens.db")
 	}
+	if kind.redis {
+		g.srv, g.ownSrv, g.rdb = fakeredis.Start(), true, redisTokenDB
+		g.srv.SetLogging(false) // scenarios that read the command log switch it on
+	}
 	return g, g.open()
 }
 
@@ -159,6 +180,12 @@ func (g *rig) open() error {
 		db.NoSync = g.nosync
 		g.db = db
 		g.inner = storage.NewBoltDBTokenStorage(db)
+	} else if g.kind.redis {
+		st, c, err := ksrig.TokenRedis(g.srv, g.rdb) // NewRedisClient (PING) + NewRedisStorage, as the servers do
+		if err != nil {
+			return err
+		}
+		g.inner, g.rcli = st, c
 	} else if g.inner == nil {
 		m, err := storage.NewMemoryTokenStorage()
 		if err != nil {
@@ -202,6 +229,10 @@ func (g *rig) close() {
 		g.db.Close()
 		g.db = nil
 	}
+	if g.rcli != nil {
+		g.rcli.Close()
+		g.rcli = nil
+	}
 }
 
 // discard closes the store and removes its scratch files.
@@ -209,6 +240,12 @@ func (g *rig) discard() {
 	g.close()
 	if g.path != "" {
 		os.RemoveAll(filepath.Dir(g.path))
+	}
+	for _, p := range g.peers {
+		p.close()
+	}
+	if g.srv != nil && g.ownSrv {
+		g.srv.Close()
 	}
 }
 
